@@ -260,11 +260,18 @@ func (e *eng) dirCase(r layRow, sub bool) {
 		y.WriteString("    context: ctx\n")
 	}
 	if r.has(2) {
-		y.WriteString("    dir: \"{{.Root}}/d_task\"\n")
+		if sub {
+			y.WriteString("    dir: \"{{.Root}}/d_task\"\n")
+		} else {
+			// relative to where taskctl is started (the project root here): it replaces the context's
+			// dir, it is not interpreted relative to it
+			y.WriteString("    dir: d_task\n")
+		}
 	}
 	// an earlier command that changes directory must not move the later ones
 	y.WriteString("    before:\n      - cd / && echo moved\n      - echo \"OBS before=[$(/bin/pwd)]\"\n    command:\n      - cd / && echo moved\n      - echo \"OBS command=[$(/bin/pwd)]\"\n    after:\n      - cd / && echo moved\n      - echo \"OBS after=[$(/bin/pwd)]\"\n")
-	y.WriteString("pipelines:\n  p:\n    - task: t\n")
+	// (the stage has a condition: it is evaluated where taskctl runs, whatever the stage's dir is)
+	y.WriteString("pipelines:\n  p:\n    - task: t\n      condition: \"true\"\n")
 	if r.has(3) {
 		if sub {
 			// written as a template (like the task's): a stage dir replaces the task's dir, it is
